@@ -440,7 +440,7 @@ def judge(ctx, c, cx, obs, tag):
         return True
     pred = project(cx, c, "m")
     dv = devs_of(cx, c)
-    case = {"context": cx, "source": decl(cx, c), "target": tag, "expected": list(exp), "observed": list(obs),
+    case = {"context": cx, "source": prelude([c]) + decl(cx, c), "target": tag, "expected": list(exp), "observed": list(obs),
             "model_predicts": list(pred), "deviations": dv, "shape": shape(c["e"])}
     # the fold handed to the context is already wrong because of a named deviation; how the context reacts to
     # the wrong constant (e.g. decl.c accepting a bit-field width of 2^64-1) is not C04's subject
@@ -802,6 +802,28 @@ def flow_a(ctx, objdir, tracedir, cfg, charsigned, targets, runtime=True):
     return traces
 
 
+def private_build(ctx):
+    """cproc-qbe of the tree under test, with hooks, in this run's scratch directory.  The shared cache evicts an
+    objdir as soon as somebody edits /repo (and a mutant build would evict everybody else's), so the unchanged
+    tree is copied out of the cache and any other tree (VERIF_REPO) is built privately."""
+    import shutil
+    objdir = ctx.path("obj")
+    os.makedirs(objdir, exist_ok=True)
+    if os.path.realpath(vlib.REPO) == "/repo":
+        for attempt in range(3):
+            try:
+                shutil.copy2(os.path.join(vlib.build("hooks"), "cproc-qbe"), os.path.join(objdir, "cproc-qbe"))
+                return objdir
+            except OSError:
+                continue
+    cc, cflags, ldflags = vlib.BUILD_FLAVOURS["hooks"]
+    p = subprocess.run(["make", "-s", "-j8", "-C", vlib.REPO, "objdir=" + objdir, "CC=" + cc, "CFLAGS=" + cflags, "LDFLAGS=" + ldflags],
+                       stdout=subprocess.PIPE, stderr=subprocess.STDOUT, text=True)
+    if p.returncode != 0 or not os.path.exists(os.path.join(objdir, "cproc-qbe")):
+        raise vlib.MachineryError("build of %s failed:\n%s" % (vlib.REPO, p.stdout[-3000:]))
+    return objdir
+
+
 class Timer:
     def __init__(self, ctx, name):
         self.ctx, self.name = ctx, name
@@ -824,12 +846,7 @@ def run(ctx):
     if "mc" in parts:
         with Timer(ctx, "model_checking"):
             model_checking(ctx)
-    built = vlib.build("hooks")
-    # private copy: the shared build cache evicts an objdir as soon as somebody edits /repo
-    objdir = ctx.path("obj")
-    os.makedirs(objdir, exist_ok=True)
-    import shutil
-    shutil.copy2(os.path.join(built, "cproc-qbe"), os.path.join(objdir, "cproc-qbe"))
+    objdir = private_build(ctx)
     tracedir = ctx.path("traces")
     os.makedirs(tracedir, exist_ok=True)
     traces, ncorpus = trace_corpus(ctx, objdir, tracedir)
@@ -842,3 +859,22 @@ def run(ctx):
         seen, total = collect_events(traces)
         validate_events(ctx, seen, total)
     ctx.cov["flowB"]["corpus_files"] = ncorpus
+
+
+def replay(ctx, path):
+    """re-run one stored case: compile its source with the tree under test, print expected / observed"""
+    j = json.load(open(path))
+    case = j["case"]
+    src = case.get("source")
+    print("key      :", j["key"])
+    print("what     :", j["what"])
+    if not src:
+        print("(no source stored for this kind of finding: %s)" % sorted(case))
+        return 2
+    objdir = private_build(ctx)
+    rc, out, err = vlib.cproc(objdir, src + "\n", case.get("target") or "x86_64-sysv", timeout=60)
+    print("source   :", src)
+    print("expected :", case.get("expected"))
+    print("recorded :", case.get("observed"))
+    print("now      : rc=%d stdout=%r stderr=%r" % (rc, out[-300:], err[-300:]))
+    return 0
